@@ -23,7 +23,7 @@ UWJ   == {<< WJ(s) >> : s \in {S(0, 0), S(1, 0), S(2, 29)}}
 UCTL  == {<< NW(9), WR(S(0, 5), "w"), CL >>, << WM(9, S(0, 125)) >>, << WM(10, S(0, 0)) >>}
 UWP   == {<< WP(p) >> : p \in {0, 1, 2, 4}}
 Units == UWM \cup UNW2 \cup UNW1 \cup UIMP \cup UWJ \cup UCTL \cup UWP
-Probe == IF Quick THEN {<< WM(2, S(0, 3)) >>, << NW(1), WR(S(1, 1), "w"), CL >>, << WC(9, S(0, 1), "zero") >>}
+Probe == IF Quick THEN {<< WM(2, S(0, 3)) >>, << NW(1), WR(S(1, 1), "w"), CL >>, << WC(9, S(0, 1), "zero") >>, << WP(0), WP(1) >>}
          ELSE {<< WM(2, S(0, 3)) >>, << NW(1), WR(S(1, 1), "w"), CL >>, << WP(0) >>, << WC(9, S(0, 1), "zero") >>, << WJ(S(0, 2)) >>}
 
 Extras == {<< >>, << WRO >>, << WC(9, S(0, 5), "zero") >>, << WC(10, S(0, 125), "d1") >>, << SD("d1") >>, << SD("d2"), WC(9, S(0, 0), "zero") >>,
@@ -44,6 +44,8 @@ MCProgs(c) ==
     [] Family = "invalid" -> {u \o x \o p : u \in Units \cup {<< >>}, x \in Invalid, p \in Probe} \cup {m \o p : m \in Mid(Invalid), p \in Probe}
     [] Family = "close"   -> {u \o x \o p : u \in Units \cup {<< >>}, x \in Closes, p \in Probe \cup Closes} \cup {m \o p : m \in Mid(Closes), p \in Probe}
     [] Family = "fault"   -> {u \o p : u \in Units, p \in Probe} \cup {m \o p : m \in Mid(Extras), p \in Probe}
+                             \* after a failure a close is refused like everything else, and stays refused
+                             \cup {u \o << WC(8, S(0, 2), "zero"), WC(8, S(0, 0), "d1") >> \o p : u \in UWM \cup UNW1 \cup UWP, p \in {<< >>, << WM(1, S(0, 1)) >>}}
     [] Family = "prepared" -> {<< WP(a) >> \o t1 \o << WP(b) >> \o t2 \o << WP(d) >> \o q :
                                   a \in 0..4, b \in {0, 1, 3}, d \in {1, 2, 4}, t1 \in Toggles, t2 \in Toggles,
                                   q \in {<< >>, << WM(1, S(0, 4)) >>}}
